@@ -1,7 +1,7 @@
 (* Prop_C27.v — the property theorems of C27 and nothing else. *)
 From Coq Require Import List NArith ZArith Bool.
 Import ListNotations.
-From Verif Require Import Base.Val C18.Fs C27.Model_C27 C27.Spec_C27 C27.Lemmas_C27 C27.Roundtrip_C27 C27.Proofs_C27.
+From Verif Require Import Base.Val C18.Fs C27.Model_C27 C27.Spec_C27 C27.Lemmas_C27 C27.Roundtrip_C27 C27.Proofs_C27 C27.Faults_C27.
 
 (* storing an entry and reading it back: every known key, the eclass data and the validation
    value are the ones stored (plain values modulo trailing blanks), nothing else appears *)
@@ -70,3 +70,39 @@ Print Assumptions listing_keeps_committed.
 Theorem listing_unrepaired_refuted : ~ listing_ok_unrepaired.
 Proof. exact listing_unrepaired_refuted_proof. Qed.
 Print Assumptions listing_unrepaired_refuted.
+
+(* FAULTS: a system call of the store raises OSError (EIO, ENOSPC, EXDEV, EACCES ...) instead of
+   being performed and _setitem's error handling runs (eio_ops: a failing rename removes the
+   STAGING file; a failing chown/chmod is ignored; everything else propagates).  For every
+   faulted call k, every flush schedule and every filesystem state: *)
+Theorem eio_framed : forall s loc pid gid cpv chunks k,
+  cpv <> [] ->
+  framed s (run (eio_ops s loc pid gid cpv chunks k) s)
+         (tmp_path loc pid cpv) (target_path loc cpv) (concat chunks).
+Proof. exact eio_framed_proof. Qed.
+Print Assumptions eio_framed.
+
+(* readers of the entry see the previous result or the complete new one *)
+Theorem store_fault_atomic : forall lay s loc pid gid cpv chunks k,
+  cpv <> [] ->
+  let sk := run (eio_ops s loc pid gid cpv chunks k) s in
+  read_entry lay sk loc cpv = read_entry lay s loc cpv \/
+  read_entry lay sk loc cpv = parse lay (concat chunks).
+Proof. exact store_fault_atomic_proof. Qed.
+Print Assumptions store_fault_atomic.
+
+Theorem store_fault_others : forall lay s loc pid gid cpv chunks k cpv',
+  cpv <> [] -> cpv' <> cpv -> target_path loc cpv' <> tmp_path loc pid cpv ->
+  lookup s (target_path loc cpv') <> None ->
+  read_entry lay (run (eio_ops s loc pid gid cpv chunks k) s) loc cpv' = read_entry lay s loc cpv'.
+Proof. exact store_fault_others_proof. Qed.
+Print Assumptions store_fault_others.
+
+(* the listing reports no partial entry and loses no committed one *)
+Theorem fault_listing : forall lay s loc pid gid cpv chunks k,
+  cpv <> [] ->
+  let sk := run (eio_ops s loc pid gid cpv chunks k) s in
+  listing_ok lay s sk loc cpv (parse lay (concat chunks)) /\
+  forall key, In key (keys s loc) -> In key (keys sk loc).
+Proof. exact fault_listing_proof. Qed.
+Print Assumptions fault_listing.
